@@ -329,7 +329,7 @@ def run(c, index, tier):
         if not U.arrays_equal(pa[:, i], numpy.asarray(est.predict(Xq), dtype=numpy.float64).ravel(), 1e-12, 1e-12):
             _viol(c, seen, "aggregation", ("predict_all-column",), "predict_all[:, %d] is not the prediction of model %d" % (i, i))
             break
-    if p.shape != (mq,) or not numpy.allclose(p, pa.mean(axis=1), rtol=1e-12, atol=1e-12):
+    if p.shape != (mq,) or not numpy.allclose(p, pa.mean(axis=1), rtol=1e-12, atol=1e-12 * (1.0 + float(numpy.abs(pa).max()))):
         _viol(c, seen, "aggregation", ("mean",), "predict is not the mean of the individual predictions: %r vs %r" % (p.tolist()[:4], pa.mean(axis=1).tolist()[:4]))
     if ps.shape != pa.shape or not numpy.array_equal(ps, numpy.sort(pa, axis=1)):
         _viol(c, seen, "aggregation", ("sorted",), "predict_sorted rows are not the individual predictions in non-decreasing order")
@@ -346,6 +346,11 @@ def run(c, index, tier):
         ok5, pa2 = U.sut(c, "predict_all(buffer refilled)", model.predict_all, buf)
         c.probe("buffer_reused")
         if ok4 and ok5:
-            want = numpy.stack([numpy.asarray(est.predict(Xq[::-1]), dtype=numpy.float64).ravel() for est in ests], axis=1)
-            if not U.arrays_equal(numpy.asarray(pa2), want, 1e-12, 1e-12) or not numpy.allclose(numpy.asarray(p2), want.mean(axis=1), rtol=1e-12, atol=1e-12):
+            # same memory layout as the refilled buffer (a reversed *view* takes
+            # another BLAS path, and an ill-conditioned model on a tiny resample
+            # has coefficients of 1e8: one ulp of a term is 1e-8 of the result)
+            Xrev = numpy.ascontiguousarray(Xq[::-1])
+            want = numpy.stack([numpy.asarray(est.predict(Xrev), dtype=numpy.float64).ravel() for est in ests], axis=1)
+            slack = 1e-9 * (1.0 + float(numpy.abs(want).max())) if want.size else 1e-9
+            if not U.arrays_equal(numpy.asarray(pa2), want, 1e-9, slack) or not numpy.allclose(numpy.asarray(p2), want.mean(axis=1), rtol=1e-9, atol=slack):
                 _viol(c, seen, "aggregation", ("buffer-reuse",), "predict / predict_all on an array object that was predicted before and refilled in place do not return the predictions of its current rows")
